@@ -7,6 +7,10 @@ from props import dbcommon
 from props import c05_api
 
 ID = 'C05'
+# ops that observe a private intermediate of the code (the private generators _get_crossreferenced_citations / _expand_wildcard_citations): a disagreement there alone -- every public op of the run agreeing,
+# no oracle clause failing -- is not counted (harness/check.py, PRIVATE_OPS)
+PRIVATE_OPS = ('xref_citations',)
+
 LEAN_MODULES = ['PybtexModel.Props.C05', 'PybtexModel.Props.C05x']
 THEOREMS = {
     'C05_reader_wf': 'domain: every database the reader builds from a file of well-formed entries (filtered by citations or not) satisfies DbWF, and reading never raises: the hypothesis DbWF of the theorems below is a container invariant, no hidden restriction',
